@@ -156,7 +156,7 @@ fn c08_check(_ctx: &Ctx, c: &C08Case) -> Report {
   let h = Arc::new(Hist::default());
   let (h2, c2) = (h.clone(), c.clone());
   let cfg = arx_rt::Config { schedule: c.sched.to_schedule(), max_steps: 60_000, fuel: 100_000 };
-  let out = arx_rt::run(cfg, move || {
+  let out = crate::real::rt_run(cfg, move || {
     if c2.default_scheduler {
       run_posters(schedulers::default_scheduler()(), &c2.posters, &h2);
     } else {
@@ -350,7 +350,7 @@ fn c18_check(_ctx: &Ctx, c: &C18Case) -> Report {
   let log = Arc::new(Mutex::new(C18Log::default()));
   let (l2, c2) = (log.clone(), c.clone());
   let cfg = arx_rt::Config { schedule: c.sched.to_schedule(), max_steps: 60_000, fuel: 100_000 };
-  let out = arx_rt::run(cfg, move || {
+  let out = crate::real::rt_run(cfg, move || {
     let ctx = CaseCtx::new();
     let subj: rx_inst::subjects::subject::Subject<'static, V> = rx_inst::subjects::subject::Subject::new();
     let source: Observable<'static, V> = match c2.via {
